@@ -175,7 +175,44 @@ static Verdict c16_resume(const KV &c, Ctx &ctx) {
   return "";
 }
 
+// One Update call of 2^29 bytes and more (where byte counts kept in 29 + 32 bits, or bit counts in 32 + 32, wrap
+// inside a single call), against OpenSSL's one-shot functions on the same buffer.  The buffer is untouched calloc
+// memory (zero pages), so it costs time, not memory.
+#pragma GCC diagnostic push
+#pragma GCC diagnostic ignored "-Wdeprecated-declarations"
+static Verdict c16_huge(const KV &c, Ctx &ctx) {
+  int prim = (int)c.geti("prim") % 5;
+  size_t n = ((size_t)1 << 29) + (size_t)c.geti("extra") % 4096;
+  size_t head = (size_t)c.geti("head") % 200;  // bytes fed in a first, small call
+  unsigned char *buf = (unsigned char *)calloc(n, 1);
+  if (!buf) return "";
+  void *cx = malloc(vfp_ctx_size(prim));
+  vfp_init(prim, cx);
+  if (head) vfp_update(prim, cx, buf, head);
+  vfp_update(prim, cx, buf + head, n - head);
+  Bytes got(vfp_digest_len(prim), '\0');
+  vfp_final(prim, cx, (unsigned char *)&got[0]);
+  free(cx);
+  unsigned char out[64];
+  switch (prim) {
+    case VFP_MD4: MD4(buf, n, out); break;
+    case VFP_MD5: MD5(buf, n, out); break;
+    case VFP_SHA1: SHA1(buf, n, out); break;
+    case VFP_SHA256: SHA256(buf, n, out); break;
+    default: SHA512(buf, n, out); break;
+  }
+  free(buf);
+  ctx.st.executed++;
+  Bytes want((char *)out, got.size());
+  if (got != want) return std::string("C16 ") + PRIM_NAME[prim] + " of " + std::to_string(n) + " zero bytes fed as " + (head ? std::to_string(head) + " + " : std::string()) + std::to_string(n - head) + " differs from the standard function: got " + hex(got) + " want " + hex(want);
+  ctx.st.cls(std::string("c16-huge-update/") + PRIM_NAME[prim]);
+  ctx.st.nontriv(fnv(c.serialize()));
+  return "";
+}
+#pragma GCC diagnostic pop
+
 static Verdict c16_check(const KV &c, Ctx &ctx) {
+  if (c.has("huge")) return c16_huge(c, ctx);
   if (c.has("before_lo")) return c16_resume(c, ctx);
   int prim = (int)c.geti("prim") % P_COUNT;
   Bytes msg = c.get("msg"), key = c.get("key"), salt = c.get("salt");
@@ -279,6 +316,24 @@ static Verdict c16_check(const KV &c, Ctx &ctx) {
 
 // exhaustive: every length x every two-way split for every digest; every length for the MACs
 static int c16_grid(Ctx &ctx) {
+  // one huge single update per digest (quick: the three with a 29-bit split in their length counter), one per shard
+  if (ctx.shard < (ctx.tier.thorough ? 5 : 3)) {
+    for (int head : {0, 100}) {
+      KV c;
+      c.seti("huge", 1);
+      c.seti("prim", ctx.shard);
+      c.seti("extra", 1000);
+      c.seti("head", head);
+      ctx.current(c);
+      ctx.st.evaluations++;
+      Verdict v = c16_huge(c, ctx);
+      if (!v.empty()) {
+        ctx.fail(c, v);
+        return 1;
+      }
+      if (!ctx.tier.thorough) break;
+    }
+  }
   size_t maxlen = ctx.tier.thorough ? 1100 : 290;
   Bytes pool;
   for (size_t i = 0; i < 1200; i++) {
